@@ -739,4 +739,84 @@ theorem lower_blocks (n : Names) (name : String) (d : Device) (l : Lir) (h : low
         subst h
         exact ⟨_, hc⟩
 
+/-! ### Block type names are the names of the definition's blocks -/
+
+mutual
+theorem blocksOfObjR_names (n : Names) (cfg : GlobalConfig) (all : List Object) :
+    ∀ (o : Object) (d : Nat), (blocksOfObjR n cfg all o).map (·.name) =
+      (((flattenObj d o).map (·.1)).filter isBlockObj).map (·.name)
+  | .block h cs, d => by
+    unfold blocksOfObjR flattenObj
+    simp only [List.map_cons, List.filter_cons, isBlockObj, if_true]
+    rw [blocksOfListR_names n cfg all cs (d + 1)]
+    rfl
+  | .register r, d => by simp [blocksOfObjR, flattenObj, isBlockObj]
+  | .command c, d => by simp [blocksOfObjR, flattenObj, isBlockObj]
+  | .buffer b, d => by simp [blocksOfObjR, flattenObj, isBlockObj]
+  | .ref r, d => by simp [blocksOfObjR, flattenObj, isBlockObj]
+theorem blocksOfListR_names (n : Names) (cfg : GlobalConfig) (all : List Object) :
+    ∀ (os : List Object) (d : Nat), (blocksOfListR n cfg all os).map (·.name) =
+      (((flattenList d os).map (·.1)).filter isBlockObj).map (·.name)
+  | [], d => by simp [blocksOfListR, flattenList]
+  | o :: os, d => by
+    unfold blocksOfListR flattenList
+    simp only [List.map_append, List.filter_append]
+    rw [blocksOfObjR_names n cfg all o d, blocksOfListR_names n cfg all os d]
+end
+
+/-- In a definition without cfgs whose objects have pairwise distinct names (what `names_unique`
+    enforces), the collected block types have pairwise distinct names. -/
+theorem block_names_nodup (n : Names) (cfg : GlobalConfig) (os : List Object)
+    (hcfg : ∀ o ∈ allObjects os, o.cfg = none)
+    (hn : ((allObjects os).map (fun o => (o.name, o.cfg))).Nodup) :
+    ((blocksOfListR n cfg os os).map (·.name)).Nodup := by
+  rw [blocksOfListR_names n cfg os os 0]
+  have hnames : ((allObjects os).map (·.name)).Nodup := by
+    have : (allObjects os).map (fun o => (o.name, o.cfg)) = ((allObjects os).map (·.name)).map (fun s => (s, (none : Cfg))) := by
+      rw [List.map_map]
+      apply List.map_congr_left
+      intro o ho
+      simp [hcfg o ho]
+    rw [this] at hn
+    unfold List.Nodup at hn ⊢
+    exact List.Pairwise.of_map (fun s => (s, (none : Cfg))) (fun a b hab he => hab (by rw [he])) hn
+  unfold allObjects at hnames
+  exact List.Nodup.sublist (List.Sublist.map _ List.filter_sublist) hnames
+
+theorem collectIntoBlocks_eq (n : Names) (cfg : GlobalConfig) (fuel : Nat) (deviceName : String)
+    (os : List Object) (blocks : List LBlock)
+    (hl : collectIntoBlocks n cfg os fuel none deviceName true os = .ok blocks) :
+    blocks = { cfg := none, root := true, name := deviceName, methods := methodsOfListR n cfg os os } ::
+      blocksOfListR n cfg os os := by
+  unfold collectIntoBlocks at hl
+  simp only [bind, Except.bind, pure, Except.pure] at hl
+  cases hc : collectMethods n cfg os fuel os with
+  | error e => rw [hc] at hl; cases hl
+  | ok p =>
+    obtain ⟨ms, bs⟩ := p
+    rw [hc] at hl
+    simp only [Except.ok.injEq] at hl
+    obtain ⟨e1, e2, _⟩ := (lowering_structure_refs n cfg os fuel).2 os ms bs hc
+    rw [← hl, e1, e2]
+
+/-- … and together with a device name that no object bears, all block type names of the lowered
+    device are distinct. -/
+theorem lowered_block_names_nodup (n : Names) (cfg : GlobalConfig) (fuel : Nat) (deviceName : String)
+    (os : List Object) (blocks : List LBlock)
+    (hl : collectIntoBlocks n cfg os fuel none deviceName true os = .ok blocks)
+    (hcfg : ∀ o ∈ allObjects os, o.cfg = none)
+    (hn : ((allObjects os).map (fun o => (o.name, o.cfg))).Nodup)
+    (hdev : ∀ o ∈ allObjects os, o.name ≠ deviceName) :
+    (blocks.map (·.name)).Nodup := by
+  rw [collectIntoBlocks_eq n cfg fuel deviceName os blocks hl]
+  simp only [List.map_cons, List.nodup_cons]
+  refine ⟨?_, block_names_nodup n cfg os hcfg hn⟩
+  rw [blocksOfListR_names n cfg os os 0]
+  intro hmem
+  obtain ⟨o, ho, he⟩ := List.mem_map.1 hmem
+  have ho' : o ∈ allObjects os := by
+    unfold allObjects
+    exact (List.mem_filter.1 ho).1
+  exact hdev o ho' he
+
 end DDV.Gen
